@@ -17,7 +17,7 @@ func init() {
 			"R03.2 wherever a reflect kind is switched on and a go/constant accessor is used, the accessor is the one of that kind (Int64Val for signed, Uint64Val for unsigned, Float32Val for float32/complex64, Float64Val for float64/complex128, BoolVal, StringVal) and complex kinds read both Real and Imag; " +
 			"R03.3 the width table used for integer representability equals 8*sizeof of each integer kind of the analysed configuration and lists every integer kind; " +
 			"R03.4 the representability bound applied to signed kinds differs from the one applied to unsigned kinds of the same width and the full-width comparison is unreachable for signed kinds; " +
-			"R03.5 the two places that advance scope.iota reset it on the last spec and increment it otherwise, identically. Arbitrary-precision arithmetic, default types and rounding are computed by go/constant and trusted.",
+			"R03.5 the two places that advance scope.iota reset it on the last spec and increment it otherwise, identically; R03.6 literals are valued by go/constant's parser (rune literals by UnquoteChar); R03.7 shared type objects are never overwritten in place. Arbitrary-precision arithmetic, default types and rounding are computed by go/constant and trusted.",
 		Assumptions: []string{"go/constant computes exact results", "the width table is checked for the host configuration in the quick tier and also for GOARCH=386 in the thorough tier"},
 		Run:         runC03,
 	})
